@@ -239,6 +239,7 @@ PATTERNS = ["", ",", "a", "aa", "ab", "aba", "b", "\u00e9", "\U0001F600", ",,", 
 def str_pool(tier, rnd):
     out = list(STRINGS)
     alphabet = ["a", "b", ",", " ", "\u00e9", "\u20ac", "\U0001F600", "\t", "A", "1", "\u00a0"]
+    out += ["stra\u00dfe", "za\u017c\u00f3\u0142\u0107 G\u0118\u015aL\u0104", "\u0391\u0392\u0393\u03b4", "\u041f\u0440\u0438\u0432\u0435\u0442", "\u00c9COLE \u00e9t\u00e9", "\u00df"]
     n = 2000 if tier == "thorough" else 60
     for _ in range(n):
         out.append("".join(rnd.choice(alphabet) for _ in range(rnd.randint(0, 12))))
@@ -406,6 +407,8 @@ def oracle(path, args):
         "string.bytes": lambda: list(a[0].encode("utf-8")),
         "string.str_from_utf8": lambda: py_utf8(a[0], False),
         "string.str_from_utf8_lossy": lambda: py_utf8(a[0], True),
+        "string.to_lowercase": lambda: a[0].lower() if case_stable(a[0]) else "skip",
+        "string.to_uppercase": lambda: a[0].upper() if case_stable(a[0]) else "skip",
         "string.trim": lambda: strip_ws(a[0], True, True),
         "string.trim_start": lambda: strip_ws(a[0], True, False),
         "string.trim_end": lambda: strip_ws(a[0], False, True),
@@ -417,6 +420,21 @@ def oracle(path, args):
     if r == "skip":
         return None
     return "ok " + sx_of_py(r)
+
+
+def case_stable(s):
+    """strings over blocks whose case mapping has not changed between Unicode versions and has no
+    context-sensitive rule (final sigma, dotted I excluded): there Python's str.upper/lower is the
+    documented "uppercase/lowercase equivalent" and must equal Rust's"""
+    for c in s:
+        o = ord(c)
+        if o < 0x80 or 0xA0 <= o <= 0x17F and o not in (0x130, 0x131, 0x17F) or 0x391 <= o <= 0x3A1 \
+                or 0x3A4 <= o <= 0x3A9 or 0x3B1 <= o <= 0x3C1 or 0x3C3 <= o <= 0x3C9 or 0x410 <= o <= 0x44F:
+            continue
+        if o >= 0x2000 and c.upper() == c == c.lower():
+            continue
+        return False
+    return True
 
 
 def strip_ws(s, left, right):
